@@ -465,13 +465,29 @@ val of_N : n -> byte option
 type ascii =
 | Ascii of bool * bool * bool * bool * bool * bool * bool * bool
 
+val eqb1 : ascii -> ascii -> bool
+
+val n_of_digits : bool list -> n
+
+val n_of_ascii : ascii -> n
+
+val ascii_of_byte : byte -> ascii
+
 val byte_of_ascii : ascii -> byte
 
 type string =
 | EmptyString
 | String of ascii * string
 
+val eqb2 : string -> string -> bool
+
+val append : string -> string -> string
+
+val string_of_list_ascii : ascii list -> string
+
 val list_ascii_of_string : string -> ascii list
+
+val string_of_list_byte : byte list -> string
 
 val list_byte_of_string : string -> byte list
 
@@ -1436,6 +1452,150 @@ val spec_a : tlsState -> akind -> bool -> tlsState option
 val wARNING : n
 
 val spec_transition : tlsState -> mkind -> bool -> tlsState option
+
+type nt_mode =
+| NtNone
+| NtDisplay
+| NtDebug
+
+type nt_type = { nt_name : string; nt_mode_of : nt_mode; nt_width : n;
+                 nt_derives_debug : bool; nt_consts : (string * n) list }
+
+val nt_TlsRecordType : nt_type
+
+val nt_TlsHandshakeType : nt_type
+
+val nt_TlsVersion : nt_type
+
+val nt_TlsHeartbeatMessageType : nt_type
+
+val nt_TlsCompressionID : nt_type
+
+val nt_KeyUpdateRequest : nt_type
+
+val nt_TlsAlertSeverity : nt_type
+
+val nt_TlsAlertDescription : nt_type
+
+val nt_TlsExtensionType : nt_type
+
+val nt_PskKeyExchangeMode : nt_type
+
+val nt_SNIType : nt_type
+
+val nt_CertificateStatusType : nt_type
+
+val nt_NamedGroup : nt_type
+
+val nt_ECCurveType : nt_type
+
+val nt_HashAlgorithm : nt_type
+
+val nt_SignAlgorithm : nt_type
+
+val nt_SignatureScheme : nt_type
+
+val nt_CtVersion : nt_type
+
+val nt_all : nt_type list
+
+val key_bits_arms : ((string * n) * n) list
+
+val sdec : n -> string
+
+val hex_digits : nat -> n -> byte list -> byte list
+
+val shex : n -> string
+
+val first_name : n -> (string * n) list -> string option
+
+val fallback : nt_type -> n -> string
+
+val display : nt_type -> n -> string
+
+val display_impl : nt_type -> n -> string option
+
+val debug_impl : nt_type -> n -> string option
+
+val sig_is_reserved : n -> bool
+
+val sig_hash_alg : n -> n
+
+val sig_sign_alg : n -> n
+
+val key_bits_in : n -> ((string * n) * n) list -> n option
+
+val key_bits : n -> n option
+
+val find_nt : string -> nt_type list -> nt_type option
+
+val iana_TlsRecordType : (string * n) list
+
+val iana_TlsHandshakeType : (string * n) list
+
+val iana_TlsVersion : (string * n) list
+
+val iana_TlsHeartbeatMessageType : (string * n) list
+
+val iana_TlsCompressionID : (string * n) list
+
+val iana_KeyUpdateRequest : (string * n) list
+
+val iana_TlsAlertSeverity : (string * n) list
+
+val iana_TlsAlertDescription : (string * n) list
+
+val iana_TlsExtensionType : (string * n) list
+
+val iana_PskKeyExchangeMode : (string * n) list
+
+val iana_SNIType : (string * n) list
+
+val iana_CertificateStatusType : (string * n) list
+
+val iana_NamedGroup : (string * n) list
+
+val iana_ECCurveType : (string * n) list
+
+val iana_HashAlgorithm : (string * n) list
+
+val iana_SignAlgorithm : (string * n) list
+
+val iana_SignatureScheme : (string * n) list
+
+val iana_CtVersion : (string * n) list
+
+val iana_all : (string * (string * n) list) list
+
+val lookup_name : n -> (string * n) list -> string option
+
+val iana_of : string -> (string * (string * n) list) list -> (string * n) list
+
+val is_digit : ascii -> bool
+
+val leading_number : string -> n option -> n option
+
+val strip_prefix : string -> string -> string option
+
+val curve_bits : string -> n option
+
+val qs : string option -> byte list
+
+val show_bool : bool -> byte list
+
+val show_optN : n option -> byte list
+
+val run_nt_line : byte list list -> byte list
+
+val spec_nt_line : byte list list -> byte list
+
+val run_sig_line : byte list list -> byte list
+
+val spec_sig_line : byte list list -> byte list
+
+val run_keybits_line : byte list list -> byte list
+
+val spec_keybits_line : byte list list -> byte list
 
 val all_entries : (string * entry_fn) list
 
